@@ -25,34 +25,32 @@ RECURSIVE Feed(_, _, _, _)
 Feed(q, out, n, rtt) == IF out = <<>> THEN q
                         ELSE Feed(IF Head(out)[2] THEN PushAck(q) ELSE PushNack(q, SendTime(n), rtt), Tail(out), n + 1, rtt)
 
-Check(s, out, isPut) ==
+Check(s, out, isPut, P) ==        \* P: the ids put so far, including the one put by this call
     LET ids == [i \in 1..Len(out) |-> out[i][1]] IN
     (IF \E i \in 1..Len(out) : ids[i] # Add(s.base, i - 1) THEN {"stream-in-order"} ELSE {})
-    \cup (IF \E i \in 1..Len(out) : out[i][2] # (ids[i] \in puts') THEN {"acked-iff-put"} ELSE {})
-    \cup (IF isPut /\ \E i \in 1..Len(out) : ~out[i][2] /\ Cardinality({p \in puts' : Sub(p, ids[i]) >= 1 /\ Sub(p, ids[i]) < Span}) < 3
+    \cup (IF \E i \in 1..Len(out) : out[i][2] # (ids[i] \in P) THEN {"acked-iff-put"} ELSE {})
+    \cup (IF isPut /\ \E i \in 1..Len(out) : ~out[i][2] /\ Cardinality({p \in P : Sub(p, ids[i]) >= 1 /\ Sub(p, ids[i]) < Span}) < 3
           THEN {"three-later-acks"} ELSE {})
 
-Step(r, isPut) ==
+(* ids the base has passed leave the put set at once (the id space wraps: they will be used again) *)
+Prune(P, base) == {p \in P : Sub(p, base) < Span}
+
+Step(r, isPut, P) ==
     \E rtt \in Rtts :
         /\ rb' = r[1]
         /\ li' = Feed(li, r[2], judged, rtt)
         /\ judged' = judged + Len(r[2])
-        /\ bad' = bad \cup Check(rb, r[2], isPut)
+        /\ bad' = bad \cup Check(rb, r[2], isPut, P)
+        /\ puts' = Prune(P, r[1].base)
 
 DoPut == \E id \in 0..(IdMod - 1) :
             /\ CanPut(rb, id) /\ id \notin puts
-            /\ puts' = puts \cup {id}
-            /\ Step(Put(rb, id), TRUE)
+            /\ Step(Put(rb, id), TRUE, puts \cup {id})
 DoAdvance == \E nb \in 0..(IdMod - 1) :
             /\ CanAdvance(rb, nb)
-            /\ puts' = puts
-            /\ Step(Advance(rb, nb), FALSE)
-(* ids the base has passed leave the put set (they will be reused after the wrap) *)
-Forget == /\ \E p \in puts : Sub(p, rb.base) >= Span
-          /\ puts' = {p \in puts : Sub(p, rb.base) < Span}
-          /\ UNCHANGED <<rb, li, judged, bad>>
+            /\ Step(Advance(rb, nb), FALSE, puts)
 
-Next == judged < MaxJudged /\ (DoPut \/ DoAdvance \/ Forget)
+Next == judged < MaxJudged /\ (DoPut \/ DoAdvance)
 Spec == Init /\ [][Next]_vars
 
 NoBadStep == bad = {}
